@@ -6,6 +6,8 @@
   That the C++'s three board representations agree with the single board is the `sync=ok` field of the correspondence.
 -/
 import ChessVerif.Lemmas.Ranges
+import ChessVerif.Lemmas.LegalShape
+import ChessVerif.Lemmas.StepUndo
 import ChessVerif.Model.Movegen
 namespace Chess.Props
 
@@ -116,5 +118,30 @@ theorem C03_observables {α : Type} (obs : Position → α) (T : ZTable) (w : Wa
 /-- reachable positions (C04's `Reach`, with ranges) satisfy the standing hypotheses: a FEN-loaded position has its
     key in step for every table -/
 theorem C03_fen_keyOK (T : ZTable) (s : String) : KeyOK T (ofFen T s) := keyOK_ofFen T s
+
+/-- field ranges follow from well-formedness of the six FEN fields (plus the clock bound) -/
+theorem ranges_of_wf (p : Position) (hwf : Spec.wf (absPos p) = true) (hh : p.halfmove < 65536) : Ranges p := by
+  have ok := posOK_of_wf _ hwf
+  refine ⟨ok.cast, ?_, hh, ok.side⟩
+  by_cases he : p.ep = 64
+  · rw [he]; decide
+  · have hf : (if p.side = 0 then p.ep / 8 = 5 else p.ep / 8 = 2) := (ep_facts (absPos p) hwf he).1
+    show p.ep < 65
+    by_cases h0 : p.side = 0
+    · rw [if_pos h0] at hf; omega
+    · rw [if_neg h0] at hf; omega
+
+/-- C03 (FULL, one move): on every position whose FEN fields are well-formed, for EVERY move legal under the rules, and
+    for every Zobrist table: `undo_move(m, do_move(m))` is the identity on the whole position record -/
+theorem C03_full (T : ZTable) (p : Position) (m : Spec.SMove) (hwf : Spec.wf (absPos p) = true)
+    (hm : m ∈ Spec.legalMoves (absPos p)) (hk : KeyOK T p) (hh : p.halfmove < 65536) (hhist : p.history.length < 800) :
+    undoMove T (doMove T p (codeOf (absPos p) m)).1 (codeOf (absPos p) m) (doMove T p (codeOf (absPos p) m)).2 = p := by
+  have r := ranges_of_wf p hwf hh
+  exact undo_do T p _ hk ⟨r.castling, r.ep, r.halfmove, r.side, hhist⟩ (stepOK_undoOK p m (stepOK_of_legal _ hwf m hm))
+
+/-- C04 corollary: the key stays in step after every rules-legal move from a well-formed position -/
+theorem C03_key_after_legal (T : ZTable) (p : Position) (m : Spec.SMove) (hwf : Spec.wf (absPos p) = true)
+    (hm : m ∈ Spec.legalMoves (absPos p)) (hk : KeyOK T p) : KeyOK T (doMove T p (codeOf (absPos p) m)).1 :=
+  keyOK_doMove T p _ hk (stepOK_undoOK p m (stepOK_of_legal _ hwf m hm)).toMoveOK
 
 end Chess.Props
